@@ -31,6 +31,9 @@ var arithOps = []string{"*", "/", "%", "<<", ">>", "&", "&^", "+", "-", "|", "^"
 var cmpOps = []string{"==", "!=", "<", "<=", ">", ">="}
 var logicOps = []string{"&&", "||"}
 
+// multiLine makes text() break the line after every binary operator (set around the printing of one program).
+var multiLine bool
+
 func (e *expr) text(full bool) string {
 	var s string
 	if e.op == "" {
@@ -47,7 +50,11 @@ func (e *expr) text(full bool) string {
 			}
 			return cs
 		}
-		s = wrap(e.l, ls, false) + " " + e.op + " " + wrap(e.r, rs, true)
+		sep := " "
+		if multiLine {
+			sep = "\n\t\t" // the expression continues on the next line after every binary operator
+		}
+		s = wrap(e.l, ls, false) + " " + e.op + sep + wrap(e.r, rs, true)
 	}
 	if e.un != "" {
 		if e.op != "" {
@@ -181,7 +188,9 @@ func exprProgForm(id int, e *expr, full bool, form int) *Prog {
 	if e.typ == 'b' {
 		rt = "bool"
 	}
+	multiLine = form == 2
 	body := e.text(full)
+	multiLine = false
 	name := fmt.Sprintf("f%d", id)
 	src := fmt.Sprintf("func %s(%s) %s {\n\treturn %s\n}\n", name, strings.Join(ps, ", "), rt, body)
 	if form == 1 {
@@ -273,6 +282,10 @@ func genC05(tier string, seed int64) []*Prog {
 			all = all[:sample]
 		}
 		for _, t := range all {
+			if id%5 == 4 && t.l != nil {
+				progs = append(progs, exprProgForm(id, t.clone(), false, 2)) // the same text spread over lines
+				id++
+			}
 			progs = append(progs, exprProgForm(id, t.clone(), false, id%2))
 			id++
 			// fully parenthesised twin (parentheses override) for trees with ≥2 operators
@@ -345,7 +358,7 @@ func checkC05(tier string, seed int64) int {
 	agg, st := NewAgg(), &eqStats{}
 	c.runEquiv(progs, "z3", agg, st)
 	agg.Into(c, "")
-	c.Cov("rule", "every well-typed expression tree over int operands a..d / bool operands p,q with 1..2 binary operators (quick: + seeded samples with one unary prefix and with 3 operators; thorough: all unary placements, 3 operators sampled 6000, 4 operators sampled 1500), printed once with Go's minimal parentheses and once fully parenthesised; the expression is either returned directly or stored in a local that is then compared and returned (alternating); all operand values symbolic")
+	c.Cov("rule", "every well-typed expression tree over int operands a..d / bool operands p,q with 1..2 binary operators (quick: + seeded samples with one unary prefix and with 3 operators; thorough: all unary placements, 3 operators sampled 6000, 4 operators sampled 1500), printed once with Go's minimal parentheses and once fully parenthesised; the expression is either returned directly or stored in a local that is then compared and returned (alternating); every fifth tree is also printed with a line break after every binary operator; all operand values symbolic")
 	c.Cov("both_sides_fail_paths", st.bothPanic)
 	c.Cov("paths_compared", st.compared)
 	c.Cov("logic_nest_programs", 4*len(logicNests()))
